@@ -47,6 +47,30 @@ def readings(t):
     return out
 
 
+def float_factor(name, _memo={}):
+    """root factor of a canonical unit as a float, from the reader's table alone (irrational chains included): scale * prod(ref ** exp)"""
+    R, T = table()
+    if name in _memo:
+        return _memo[name]
+    d = R["units"][name]
+    if d["base"]:
+        f = 1.0
+    else:
+        f = float(d["scale"])
+        for k, e in d["ref"].items():
+            k2 = k
+            if k2 not in R["units"]:
+                rd = [(p_, c_) for p_, c_ in readings(k2)]
+                if not rd:
+                    raise KeyError(k2)
+                p_, c_ = sorted(rd)[0] if ("", k2) not in rd else ("", k2)
+                f *= (float(R["prefixes"][p_]["value"]) if p_ else 1.0) ** float(e) * float_factor(c_) ** float(e)
+            else:
+                f *= float_factor(k2) ** float(e)
+    _memo[name] = f
+    return f
+
+
 def item(s, e):
     e = F(e)
     return {"s": reader.esc(s), "e": [e.numerator, e.denominator], "sp": reader.splits_of(s)}
